@@ -113,6 +113,10 @@ func c18Configs(tier string) []c18Cfg {
 		c18Cfg{Kind: "direct", Strategy: "drop", Threads: "P", Sink: "panic-async"}, c18Cfg{Kind: "counting", Strategy: "drop", Threads: "P", Sink: "panic-async"}, c18Cfg{Kind: "direct", Strategy: "drop", Threads: "PS", Sink: "panic-async"}, c18Cfg{Kind: "tumbling-evt", Strategy: "drop", Threads: "PS", Sink: "panic-async"})
 	out = append(out, c18Cfg{Kind: "direct", Strategy: "drop", Threads: "P", Sink: "panic-then-plain"}, c18Cfg{Kind: "direct", Strategy: "drop", Threads: "PE", Sink: "panic-then-plain"},
 		c18Cfg{Kind: "counting", Strategy: "drop", Threads: "P", Sink: "panic-then-plain"}, c18Cfg{Kind: "tumbling-evt", Strategy: "drop", Threads: "PS", Sink: "panic-then-plain"})
+	// TriggerWindow racing Stop on every keyed / timed window kind (an open session, a partial counting batch)
+	for _, k := range []string{"session-evt", "session-proc", "sliding-evt", "tumbling-proc", "counting"} {
+		out = append(out, c18Cfg{Kind: k, Strategy: "drop", Threads: "PST", Sink: "plain"})
+	}
 	// a producer parked inside Emit on a full input channel (the sink holds the pipeline until Stop has returned)
 	// must be released by Stop, under every strategy
 	for _, st := range []string{"block", "drop", "expand"} {
@@ -330,6 +334,7 @@ func c18Run(cfg c18Cfg) explore.RunFunc {
 			stopReturned = true
 			before := o.sinkCalls
 			s.Emit(Row{"id": 99, "k": "a", "v": 9, "ts": 9000}) // silent no-op after Stop
+			s.TriggerWindow()                                    // the manual flush after Stop: no panic, nothing reaches a sink
 			vtime.Sleep(700 * vtime.Millisecond)                 // lets every poll ticker fire: stragglers would show up
 			sched.Quiesce()
 			o.emitAfterStopSinks = o.sinkCalls - before
